@@ -63,6 +63,7 @@ type JobResult struct {
 	Inputs      int
 	KnownSeen   map[string]bool
 	Stats       string
+	Witness     map[string]MVal
 }
 
 var verbose bool
@@ -207,6 +208,7 @@ func runJob(prog *ssa.Program, pkgs map[string]*ssa.Package, job *Job) (res *Job
 	res.MaxUnwind = ex.maxUnwind
 	res.Stats = fmt.Sprintf("incQ=%d restarts=%d oneShotBranch=%d cacheHits=%d", ex.inc.nq, ex.restarts, ex.oneShotBranch, ex.cacheHits)
 	res.KnownSeen = ex.knownSeen
+	res.Witness = ex.witness
 	for f := range ex.funcsSeen {
 		if f.Pkg != nil && ex.interpPkg(f.Pkg) && !strings.Contains(f.Name(), "verif") && !strings.HasPrefix(f.Name(), "Verif") && !strings.HasPrefix(f.Name(), "vf") {
 			res.Funcs = append(res.Funcs, f.String())
